@@ -26,7 +26,33 @@ def grammar():
                 break
         if _G is None:
             raise vlib.ToolError("grammar dump failed:\n" + r.out[-2000:])
+        _check_cost0_acyclic(_G["prod"])
     return _G
+
+
+def _check_cost0_acyclic(prod):
+    """every cycle of the grammar must pass through a growing (cost 1) alternative, otherwise derivations
+    with an exhausted budget need not terminate"""
+    edges = {nt: set() for nt in prod}
+    for nt, alts in prod.items():
+        for a in alts:
+            if a["c"] == 0:
+                for s in a["rhs"]:
+                    if s["t"] == "nt":
+                        edges[nt].add(s["v"])
+    state = {}
+
+    def visit(n, path):
+        if state.get(n) == 2:
+            return
+        if state.get(n) == 1:
+            raise vlib.ToolError("Grammar.tla: cycle through cost-0 alternatives: %s" % " -> ".join(path + [n]))
+        state[n] = 1
+        for m in sorted(edges[n]):
+            visit(m, path + [n])
+        state[n] = 2
+    for n in sorted(edges):
+        visit(n, [])
 
 
 def id_text(k):
